@@ -205,6 +205,67 @@ theorem idempotent (k k' : CoseKey) (ord : CborOrdering) (h : k.canonicalize ord
   rw [canonicalize_eq]
   rw [List.mergeSort_of_pairwise hs]
 
+/-! ### the argument the implementation relies on: typed labels 1–5 sort strictly below every admissible extra label -/
+
+/-- an extra parameter label of an accepted key: serialisable and not one of the typed labels 1..5; 0 is excluded too (D5). -/
+def ExtraLabel (l : Label) : Prop := ValidLabel l ∧ ∀ i : Int, 0 ≤ i → i ≤ 5 → l ≠ .int i
+
+theorem encHead_len_pos (m n : Nat) : 1 ≤ (encHead m n).length := by
+  unfold encHead; (repeat' split) <;> simp
+
+theorem encLabel_len_pos (l : Label) : 1 ≤ (encLabel l).length := by
+  cases l with
+  | int i => simp only [encLabel, enc]; split <;> exact encHead_len_pos _ _
+  | text t => simp only [encLabel, enc, List.length_append]; have := encHead_len_pos 3 t.length; omega
+
+theorem encLabel_typed_len (t : Int) (h0 : 0 ≤ t) (h5 : t ≤ 5) : (encLabel (.int t)).length = 1 := by
+  have : t.toNat < 24 := by omega
+  simp [encLabel, enc, h0, encHead, this]
+
+/-- bytewise order: every typed label is strictly below every admissible extra label. -/
+theorem typed_below_extras (t : Int) (h1 : 1 ≤ t) (h5 : t ≤ 5) (l : Label) (hl : ExtraLabel l) :
+    Label.cmp (.int t) l = .ok .lt := by
+  cases l with
+  | text s => rfl
+  | int i =>
+    rw [cmp_int]
+    have hne := hl.2
+    by_cases n : i < 0
+    · have : ¬ t < 0 := by omega
+      simp [intOrd, this, n]
+    · have h6 : 5 < i := by
+        by_cases h : i ≤ 5
+        · exact absurd rfl (hne i (by omega) h)
+        · omega
+      have : ¬ t < 0 := by omega
+      simp only [intOrd, this, n, if_false]
+      have hlt : t < i := by omega
+      rw [compare_lt hlt]
+
+/-- length-first order: the same, because typed labels encode in one byte and nothing encodes in fewer. -/
+theorem typed_below_extras_canonical (t : Int) (h1 : 1 ≤ t) (h5 : t ≤ 5) (l : Label) (hl : ExtraLabel l) :
+    Label.cmpCanonical (.int t) l = .ok .lt := by
+  have hv : ValidLabel (.int t) := by simp only [ValidLabel, I64, i64Min, i64Max]; omega
+  have hlex := typed_below_extras t h1 h5 l hl
+  rw [cmp_is_lex _ _ hv hl.1] at hlex
+  simp only [Res.ok.injEq] at hlex
+  rw [cmp_canonical_is_lenlex]
+  simp only [Res.ok.injEq]
+  rw [lenLex_lt_iff, encLabel_typed_len t (by omega) h5]
+  have := encLabel_len_pos l
+  by_cases h : 1 < (encLabel l).length
+  · left; exact h
+  · right; exact ⟨by omega, hlex⟩
+
+/-- the side condition is exactly where D5 lives: label 0 is *not* above the typed labels. -/
+example : Label.cmp (.int 1) (.int 0) = .ok .gt ∧ Label.cmpCanonical (.int 1) (.int 0) = .ok .gt := by decide
+example : ExtraLabel (.int (-1)) ∧ ExtraLabel (.int 6) ∧ ExtraLabel (.text []) := by
+  refine ⟨⟨?_, ?_⟩, ⟨?_, ?_⟩, ⟨?_, ?_⟩⟩ <;> first
+    | (simp only [ValidLabel, I64, i64Min, i64Max]; omega)
+    | (simp [ValidLabel]; done)
+    | (intro i h0 h5 h; cases h; omega)
+    | (intro i h0 h5 h; cases h)
+
 /-! ### "every initial order": the canonical form depends only on the *set* of extra parameters -/
 
 /-- both comparisons are antisymmetric on labels that serialise (so `≤` both ways means the same label). -/
@@ -308,6 +369,8 @@ theorem sorted_refuted :
 #print axioms canonLe_trans
 #print axioms sorted
 #print axioms idempotent
+#print axioms typed_below_extras
+#print axioms typed_below_extras_canonical
 #print axioms order_independent
 #print axioms order_independent_key
 #print axioms sorted_refuted
